@@ -9,3 +9,27 @@ def register(claim, na):
           "a closed finite product is the right level for a pure function of two small structures.",
           "Alphabet bounds (3 memory sizes, 3 core counts, <=3 GPUs, 3 durations); host policies min_memory/priority left at defaults; humanfriendly's size/timespan parsing trusted.",
           "DESIGN.md 3/C18")
+
+    G_NOTE = ("Bounds: N configuration nodes, k deviations from the all-default graph of each root class and from hand-made seed graphs "
+              "(cycles, sharing, meta elements, tasks, outputs, pre/init tasks); value alphabets of 2-9 values per kind; the universe of classes in "
+              "/verif/universe/g.py. The reference encoder/signature (engines/refmodel.py) is trusted as the reading of the documentation; it is "
+              "independent of experimaestro's hashing code and cross-checked against 349 identifiers pinned from the original commit.")
+    claim("C01", "G", "exploration",
+          "bounded-exhaustive enumeration of configuration graphs x construction/sealing/request histories x hash seeds, compared with an independent reference encoder",
+          "All descriptions within (N, k) are built by the real API under every history of the history alphabet (construction style, keyword and dict "
+          "insertion order, identifier requests on all nodes in all orders before and after sealing/submitting) in two processes with different "
+          "PYTHONHASHSEED; every identifier obtained must equal the content-determined value of the reference encoder, job directories must derive "
+          "from it, and 349 identifiers pinned from the original commit must be reproduced. Exhaustive within the stated bounds.",
+          G_NOTE, "DESIGN.md 2.1, 3/C01")
+    claim("C02", "G", "exploration",
+          "bounded-exhaustive enumeration of configuration graphs x every applicable signature-neutral edit at every node",
+          "For every description, every neutral edit the statement lists (explicit default/None, Meta/Option/Path value, meta-flagged sub-configurations "
+          "as field/list element/dict value and changes below them, tags, token and explicit dependencies, launcher, workspace, run mode, class "
+          "extended with defaulted/Meta/generated parameters) is applied at every node where it applies; the real identifier must not change. "
+          "The reference signature must agree that the edit is neutral, otherwise the check stops as a harness error.",
+          G_NOTE, "DESIGN.md 3/C02")
+    claim("C03", "G", "exploration",
+          "bounded-exhaustive enumeration of configuration graphs, grouping by real identifier against canonical signatures",
+          "All descriptions within (N, k) - the space contains every pair one small structural edit apart because it contains everything - are "
+          "identified by the real code; any two descriptions sharing an identifier must have the same canonical signature.",
+          G_NOTE + " Domain as in the statement: no control characters, dicts nested <= 2 levels.", "DESIGN.md 3/C03")
